@@ -21,7 +21,9 @@ Independent sentinel on the REAL code (no use of the translator or of Lean):
      These equations are also THEOREMS (Props/C17Einstein.lean) for every
      module; the sentinel stays as the independent check on the real code;
  (d) the Schwarzschild Kretschmann closed form vs the metric (also a theorem now);
- (e) the hypergeometric antiderivative assumed by the Szekeres zz theorem.
+ (e) the hypergeometric antiderivative of the Szekeres zz theorem (a theorem since Props/C17Hyp.lean) with mpmath's
+     hyp2f1 at 30 digits, (e') Pfaff's continuation, summed as Mathlib defines it, and scipy's hyp2f1 against mpmath;
+ (f) informational: the residual of the growth relation for ICPertFLRW on LCDM (Props/C17Pert.lean).
 """
 import importlib
 import itertools
@@ -57,6 +59,20 @@ THEOREMS_EINSTEIN = ["AurelVerif.C17." + t for t in (
     "einstein_Harvey_Tsoubelis", "einstein_Collins_Stewart", "einstein_Rosquist_Jantzen",
     "einstein_Non_diagonal", "Non_diagonal_domain_iff",
     "einstein_Szekeres_partial", "einstein_Szekeres_pointwise", "Szekeres_domain_iff")]
+# part 3: the Gauss hypergeometric antiderivative of Szekeres proven (Props/C17Hyp.lean; Lemmas/C17PowSeries, C17HypDisc,
+# C17HypPfaff, C17HypPfaffEq) and the Szekeres theorems with the hypothesis discharged.
+MODULE_HYP = "AurelVerif.Props.C17Hyp"
+THEOREMS_HYP = ["AurelVerif.C17." + t for t in (
+    "hyp2f1_defs", "hyp2f1_antiderivative_disc", "hyp2f1_antiderivative", "hyp2f1_pfaff",
+    "K_is_metric_rate_Szekeres", "K_is_metric_rate_Szekeres_disc", "Szekeres_dtZ_is_rate_hyp", "einstein_Szekeres",
+    "Szekeres_series_agrees_on_disc")]
+# part 4: ICPertFLRW at first order in the dual numbers (Props/C17Pert.lean; Spec/Constraints3.lean,
+# Lemmas/C17PertFLRW.lean, Lemmas/C17PertInst.lean).
+MODULE_PERT = "AurelVerif.Props.C17Pert"
+THEOREMS_PERT = ["AurelVerif.C17." + t for t in (
+    "ICPertFLRW_constraints_first_order", "ICPertFLRW_constraints_EdS", "ICPertFLRW_constraints_LCDM",
+    "ICPertFLRW_data_affine", "ICPertFLRW_spatial_derivatives", "ICPertFLRW_metric_rate",
+    "ICPertFLRW_K_is_metric_rate_of_growth", "EdS_growth_relation")]
 # fallback attribution when Props/C17Einstein does not build: property theorem -> (lemma module, lemmas it is made of)
 EINSTEIN_PARTS = {
     "einstein_EdS": ("FLRW", ("EdS_isJetField", "EdS_einstein")),
@@ -80,7 +96,9 @@ LEAN_FILES = ["AurelVerif/Props/C17.lean", "AurelVerif/Lemmas/Solutions.lean", "
               "AurelVerif/Lemmas/C17JetTac.lean", "AurelVerif/Lemmas/C17DerivTac.lean", "AurelVerif/Lemmas/C17JetCalc.lean"] + \
              ["AurelVerif/Lemmas/C17Jet%s.lean" % f for f in ("FLRW", "ConfFlat", "Schw", "HT", "CS", "RJ", "ND", "Szek")] + \
              ["AurelVerif/Lemmas/C17Ein%s.lean" % f for f in ("FLRW", "ConfFlat", "Schw", "HT", "CS", "RJ", "ND", "Szek")] + \
-             ["AurelVerif/Lemmas/C17SzekWitness.lean"]
+             ["AurelVerif/Lemmas/C17SzekWitness.lean"] + \
+             ["AurelVerif/Props/C17Hyp.lean", "AurelVerif/Props/C17Pert.lean", "AurelVerif/Spec/Constraints3.lean"] + \
+             ["AurelVerif/Lemmas/C17%s.lean" % f for f in ("PowSeries", "HypDisc", "HypPfaff", "HypPfaffEq", "PertFLRW", "PertInst")]
 COSMO = ("EdS", "LCDM", "Szekeres", "ICPertFLRW")
 
 
@@ -123,6 +141,105 @@ def rel_err(a, b):
 
 # ------------------------------------------------- translation validation
 SCALAR_RANGES = {("EdS", "z"): (0.0, 5.0), ("EdS", "a"): (0.1, 2.0), ("EdS", "Hprop"): (1e-4, 1e-3)}
+
+
+class JetFD:
+    """fd stand-in for ICPertFLRW in which `Rc` is a float that remembers which partial derivative of Rc it is
+    (multi-index (n1, n2, n3)); d3x/d3y/d3z return the next jet symbol eps * jets[n + e_k]."""
+
+    class V(float):
+        def __new__(cls, val, idx):
+            o = float.__new__(cls, val)
+            o.idx = idx
+            return o
+
+    def __init__(self, jets, eps):
+        self.jets, self.eps = jets, eps
+
+    def val(self, idx):
+        return JetFD.V(self.eps * self.jets.get(tuple(idx), 0.0), tuple(idx))
+
+    def _d(self, f, k):
+        i = list(f.idx)
+        i[k] += 1
+        return self.val(i)
+
+    def d3x(self, f):
+        return self._d(f, 0)
+
+    def d3y(self, f):
+        return self._d(f, 1)
+
+    def d3z(self, f):
+        return self._d(f, 2)
+
+
+def icpert_constraints(sol, t, jets, eps):
+    """Hamiltonian and momentum constraint residuals (textbook formulas, numpy) of the REAL ICPertFLRW data
+    (gammadown3, Kdown3, rho_bg (1 + delta1)) for Rc -> eps Rc with the given jet of Rc; spatial derivatives of the
+    data from the module itself on the shifted jets (the formulas are affine in the jet)."""
+    M = mod("ICPertFLRW")
+    E = np.eye(3, dtype=int)
+    aH = float(sol.a(t) * sol.Hprop(t))
+    fd0, fd1 = JetFD({}, 0.0), JetFD(jets, 1.0)
+    arr = lambda fn, f, idx: np.asarray(getattr(M, fn)(sol, f, t, f.val(idx)), dtype=float)
+
+    def lin(fn, idx):
+        # linear part of the (affine) module formula on the jet shifted by idx, without cancellation: central
+        # difference in the amplitude with a step that makes the perturbation of order one
+        s = 0.25 / aH ** int(sum(idx))
+        return (arr(fn, JetFD(jets, s), idx) - arr(fn, JetFD(jets, -s), idx)) / (2 * s)
+    g0, K0 = arr("gammadown3", fd0, (0, 0, 0)), arr("Kdown3", fd0, (0, 0, 0))
+    g, K = g0 + eps * lin("gammadown3", (0, 0, 0)), K0 + eps * lin("Kdown3", (0, 0, 0))
+    dg = eps * np.array([lin("gammadown3", E[k]) for k in range(3)])
+    dK = eps * np.array([lin("Kdown3", E[k]) for k in range(3)])
+    ddg = eps * np.array([[lin("gammadown3", E[k] + E[l]) for l in range(3)] for k in range(3)])
+    rho = sol.rho(t) * (1 + eps * float(M.delta1(sol, fd1, t, fd1.val((0, 0, 0)))))
+    gi = np.linalg.inv(g)
+    Gl = 0.5 * (np.einsum("bdc->dbc", dg) + np.einsum("cdb->dbc", dg) - dg)
+    Gam = np.einsum("ad,dbc->abc", gi, Gl)
+    dgi = -np.einsum("ai,eij,jb->eab", gi, dg, gi)
+    dGl = 0.5 * (np.einsum("ebdc->edbc", ddg) + np.einsum("ecdb->edbc", ddg) - ddg)
+    dGam = np.einsum("ead,dbc->eabc", dgi, Gl) + np.einsum("ad,edbc->eabc", gi, dGl)
+    Riem = (np.einsum("cadb->abcd", dGam) - np.einsum("dacb->abcd", dGam)
+            + np.einsum("ace,edb->abcd", Gam, Gam) - np.einsum("ade,ecb->abcd", Gam, Gam))
+    RS = np.einsum("bd,abad->", gi, Riem)
+    Ktr = np.einsum("ij,ij->", gi, K)
+    KK = np.einsum("ij,ik,jl,kl->", K, gi, gi, K)
+    lam = getattr(sol, "Lambda", 0.0)
+    ham = RS + Ktr ** 2 - KK - 2 * sol.kappa * rho - 2 * lam
+    cov = dK - np.einsum("mca,mb->cab", Gam, K) - np.einsum("mcb,am->cab", Gam, K)
+    mom = np.einsum("jk,jki->i", gi, cov) - np.einsum("jk,ijk->i", gi, cov)
+    return ham, mom
+
+
+def oracle_icpert_constraints(rng, p):
+    """(g) ICPertFLRW satisfies the constraints at first order (theorem ICPertFLRW_constraints_first_order): the
+    O(eps) coefficient of the residuals, by Richardson extrapolation from eps and eps/2, is zero relative to the
+    first-order terms it is made of.  Jets of Rc vary on the Hubble scale (|n|-th derivative ~ (a H)^|n|)."""
+    out = []
+    t = p[0]
+    for sname in ("EdS", "LCDM"):
+        sol = mod(sname)
+        aH = float(sol.a(t) * sol.Hprop(t))
+        jets = {n: rng.uniform(-0.3, 0.3) * aH ** sum(n) for n in itertools.product(range(5), repeat=3) if sum(n) <= 4}
+        eps = 1e-6
+        hA, mA = icpert_constraints(sol, t, jets, eps)
+        hB, mB = icpert_constraints(sol, t, jets, eps / 2)
+        c1h, c1m = 2 * hB / (eps / 2) - hA / eps, 2 * mB / (eps / 2) - mA / eps
+        H = float(sol.Hprop(t))
+        sh = H ** 2 * max(abs(v) / aH ** sum(n) for n, v in jets.items())
+        sm = sh * aH
+        if not abs(c1h) <= 1e-4 * sh:
+            out.append({"oracle": "icpert_constraints", "module": "ICPertFLRW", "component": ["hamiltonian", sname], "point": list(p),
+                        "expected": 0.0, "observed": float(c1h),
+                        "what": "ICPertFLRW(%s): Hamiltonian constraint violated at first order in Rc: d/d(eps) residual = %.6g (scale of its terms %.3g)" % (sname, c1h, sh)})
+        for i in range(3):
+            if not abs(c1m[i]) <= 1e-4 * sm:
+                out.append({"oracle": "icpert_constraints", "module": "ICPertFLRW", "component": ["momentum", i, sname], "point": list(p),
+                            "expected": 0.0, "observed": float(c1m[i]),
+                            "what": "ICPertFLRW(%s): momentum constraint %d violated at first order in Rc: d/d(eps) residual = %.6g (scale %.3g)" % (sname, i, c1m[i], sm)})
+    return out
 
 
 class FDStub:
@@ -571,6 +688,28 @@ def oracle_hyp_identity(tau):
     return float(abs(d - e) / abs(e))
 
 
+def oracle_hyp_continuation(tau):
+    """(e') the function the Lean theorems use in place of scipy's hyp2f1 on x = -sinh^2(tau) <= 0,
+    gaussHypNeg(5/6,3/2,11/6,x) = (1-x)^(-3/2) * sum_n (3/2)_n/(11/6)_n w^n, w = x/(x-1) (Pfaff's form, summed term by
+    term exactly as Mathlib's ordinaryHypergeometric 1 (3/2) (11/6) w is defined), against mpmath's hyp2f1 (analytic
+    continuation) at 30 digits, and the real code's scipy.special.hyp2f1 against mpmath.  Returns (rel. diff Pfaff,
+    rel. diff scipy)."""
+    import mpmath as mp
+    import scipy.special as sc
+    mp.mp.dps = 30
+    x = -mp.sinh(tau) ** 2
+    w = x / (x - 1)
+    term, tot, n = mp.mpf(1), mp.mpf(0), 0
+    while abs(term) > mp.mpf(10) ** (-32) and n < 200000:
+        tot += term
+        term *= (mp.mpf(3) / 2 + n) / (mp.mpf(11) / 6 + n) * w
+        n += 1
+    pf = (1 - x) ** (-mp.mpf(3) / 2) * tot
+    ref = mp.hyp2f1(mp.mpf(5) / 6, mp.mpf(3) / 2, mp.mpf(11) / 6, x)
+    real = sc.hyp2f1(5 / 6, 3 / 2, 11 / 6, float(x))
+    return float(abs(pf - ref) / abs(ref)), float(abs(mp.mpf(float(real)) - ref) / abs(ref))
+
+
 ORACLES = {"einstein": oracle_einstein, "K": oracle_K, "numsym": oracle_numsym}
 
 
@@ -691,6 +830,7 @@ def run_oracles(ctx, rng, n):
                 fails += oracle_kretschmann(p)
     for _ in range(max(1, n // 2)):
         fails += oracle_K_icpert(rng, sample_point(rng, "ICPertFLRW"))
+        fails += oracle_icpert_constraints(rng, sample_point(rng, "ICPertFLRW"))
     return fails
 
 
@@ -724,17 +864,46 @@ def sentinel(ctx, n):
         found += bool(ctx.violation("the antiderivative assumed for Szekeres.integrated_part fails numerically (rel %.2e)" % worst,
                                     {"kind": "input", "oracle": "hyp_identity", "module": "Szekeres", "component": [], "point": []},
                                     {"oracle": "hyp_identity", "module": "Szekeres"}))
+    cont = [oracle_hyp_continuation(ctx.rng.uniform(0.05, 3.0)) for _ in range(max(2, n))]
+    wp, wsc = max(c[0] for c in cont), max(c[1] for c in cont)
+    ctx.cov["hypergeometric_pfaff_continuation_worst_rel_diff_vs_mpmath"] = wp
+    ctx.cov["scipy_hyp2f1_worst_rel_diff_vs_mpmath"] = wsc
+    if wp > 1e-20 or wsc > 1e-10:
+        found += bool(ctx.violation("the function proven to be the antiderivative (Pfaff continuation of 2F1(5/6,3/2;11/6;-sinh^2)) "
+                                    "differs from mpmath's hyp2f1 (rel %.2e) or scipy.special.hyp2f1 differs from mpmath (rel %.2e)" % (wp, wsc),
+                                    {"kind": "input", "oracle": "hyp_continuation", "module": "Szekeres", "component": [], "point": []},
+                                    {"oracle": "hyp_continuation", "module": "Szekeres"}))
+    try:
+        ctx.cov["ICPertFLRW_LCDM_growth_relation_rel_residual_today"] = icpert_lcdm_growth_residual()
+    except Exception as ex:  # noqa
+        ctx.cov["ICPertFLRW_LCDM_growth_relation_rel_residual_today"] = repr(ex)
     ctx.cov["oracle_points_per_module"] = n
     return found
+
+
+def icpert_lcdm_growth_residual(t=None):
+    """Informational (not a violation: the module documents first-order + growth-index approximation): relative residual
+    of the growth relation d/dt[1/(F H^2)] = (2+f)/(F H) for sol = LCDM with f = Omega_m^(6/11); by the theorem
+    ICPertFLRW_metric_rate this is the relative size of K_ij + (1/2) d_t gamma_ij in its d_i d_j Rc part."""
+    import mpmath as mp
+    sol = mod("LCDM")
+    if t is None:
+        t = float(sol.t_func_a(1.0)) if hasattr(sol, "t_func_a") else 1.0 / float(sol.Hprop_today)
+    F = lambda s: sol.fL(s) + 1.5 * sol.Omega_m(s)
+    g = lambda s: 1.0 / (F(s) * sol.Hprop(s) ** 2)
+    h = 1e-4 * t
+    d = (g(t - 2 * h) - 8 * g(t - h) + 8 * g(t + h) - g(t + 2 * h)) / (12 * h)
+    want = (2 + sol.fL(t)) / (F(t) * sol.Hprop(t))
+    return float(abs(d - want) / abs(want))
 
 
 def run(ctx):
     ctx.trusted += ["Lean 4.33 kernel; Mathlib real analysis; axioms propext, Classical.choice, Quot.sound",
                     "py2lean/solutions.py (AST -> real expressions; validated against the real functions at random points, rel 1e-12)",
                     "grid arrays modelled pointwise over the reals; module constants by their symbolic definitions (float rounding not modelled)",
-                    "numpy/sympy/scipy elementary functions denote the Mathlib functions of the same name; hyp2f1 opaque"]
-    ctx.assumptions += ["Szekeres zz component: integrated_part is an antiderivative of part_to_integrate (hypothesis of the theorem; checked numerically with mpmath), Z != 0",
-                        "Einstein's equations for Szekeres: the identification of the 2-jet with the derivatives of the metric rests on the same hypergeometric-antiderivative hypothesis (for all tau > 0); the field equations at a point are unconditional",
+                    "numpy/sympy/scipy elementary functions denote the Mathlib functions of the same name; hyp2f1 opaque in the generated definitions, instantiated in Props/C17Hyp.lean by Mathlib's ordinaryHypergeometric (Pfaff continuation)"]
+    ctx.assumptions += ["Szekeres: the hypergeometric antiderivative is proven (Props/C17Hyp.lean) for Mathlib's Gauss series inside the unit disc and for its Pfaff continuation on the whole negative axis; that scipy.special.hyp2f1 / sympy.hyper denote that function is checked numerically (mpmath, 30 digits); Z != 0",
+                        "ICPertFLRW: first order in the formal parameter eps of Rc -> eps Rc (dual numbers); the partial derivatives of Rc are jet symbols (exact derivatives in place of fd.d3x/d3y/d3z); K = -(1/2) d_t gamma for a background satisfying the growth relation (EdS: proven; LCDM: the module's growth-index approximation)",
                         "spacetime curvature is defined algebraically from the 2-jet of the metric (Spec/Jet4.lean, textbook formulas); that the jet entries are the partial derivatives of the generated metric is proven with Mathlib's HasDerivAt, coordinate by coordinate (Spec/MetricJet.lean)"]
     info = None
     try:
@@ -750,9 +919,11 @@ def run(ctx):
         ctx.obligation("py2lean:solutions", False, "translation failed: %r" % ex, kind="translation")
     prove(ctx)
     prove_einstein(ctx)
+    ctx.prove(MODULE_HYP, THEOREMS_HYP, timeout=3000)
+    ctx.prove(MODULE_PERT, THEOREMS_PERT, timeout=3000)
     ctx.forbidden_scan(LEAN_FILES)
     if ctx.tier == "thorough" and not ctx.broken():
-        ctx.leanchecker([MODULE, MODULE_EINSTEIN])
+        ctx.leanchecker([MODULE, MODULE_EINSTEIN, MODULE_HYP, MODULE_PERT])
     if info is not None:
         try:
             bad = validate_translation(ctx, info, ctx.budget(4, 40))
@@ -774,6 +945,10 @@ def replay(ctx, obj):
         w = oracle_hyp_identity(0.7)
         print("replay: residual", w)
         return 1 if w > 1e-20 else 0
+    if o == "hyp_continuation":
+        w = [oracle_hyp_continuation(u) for u in (0.3, 0.9, 2.0)]
+        print("replay: (Pfaff vs mpmath, scipy vs mpmath)", w)
+        return 1 if max(c[0] for c in w) > 1e-20 or max(c[1] for c in w) > 1e-10 else 0
     n = 0
     for p in (obj.get("point"), obj.get("point2")):
         if not p:
@@ -782,6 +957,10 @@ def replay(ctx, obj):
             fs = ORACLES[o](m, p)
         elif o == "kretschmann":
             fs = oracle_kretschmann(p)
+        elif o == "icpert_constraints":
+            fs = []
+            for _ in range(3):
+                fs = fs or oracle_icpert_constraints(ctx.rng, p)
         else:
             fs = oracle_K_icpert(ctx.rng, p)
         fs = [f for f in fs if f["component"] == obj.get("component")]
@@ -795,6 +974,6 @@ def replay(ctx, obj):
 MANIFEST = {
     "category": "proof",
     "technique": "Lean 4 / Mathlib theorems (HasDerivAt, real powers, sinh/cosh/exp/log) about real-valued expressions regenerated on every run from the ASTs of solutions/*.py; Einstein tensor defined algebraically from the 2-jet of a metric over any field (Spec/Jet4.lean) and evaluated per metric family by staged, Lean-proven closed-form tables (Christoffel, dGamma, Ricci, Einstein, Riemann/Kretschmann), the jets tied to the generated metrics by HasDerivAt; translation validated against the real functions; independent sympy/mpmath sentinel on the real code",
-    "text": "Partial proof. Proven for all t > 0 and all positions (about definitions regenerated from the source each run): (T1) the numpy and sympy branches of every `analytical=` function (metric, lapse, a(t), A, Z_terms) denote the same function, for all 8 modules that have the flag; (T2) Kdown3 is the time-rate of gammadown3, d_t gamma_ij = -2 alpha K_ij, all nine components, for EdS and LCDM (including H = a'/a from the modules' own a(t), Hprop(t) and symbolically related constants), Conformally_flat, Schwarzschild_isotropic (static), Harvey_Tsoubelis, Collins_Stewart, Non_diagonal, Rosquist_Jantzen, Szekeres (eight components unconditionally; zz under the explicit hypothesis that integrated_part is an antiderivative of part_to_integrate, and Z != 0), ICPertFLRW on the EdS background for arbitrary second derivatives of Rc plus its unperturbed limit; lapse and zero shift read off each module's own gdown4; (T3) EINSTEIN'S EQUATIONS G_ab + Lambda g_ab = kappa T_ab, all ten components at every point of the domain, with G the textbook Einstein tensor computed from a 2-jet of the metric whose entries are PROVEN to be the first and second partial derivatives (Mathlib HasDerivAt) of the module's own generated metric: EdS, LCDM (perfect fluid at rest with the module's rho, press, Lambda), Conformally_flat (Tdown4), Schwarzschild_isotropic (vacuum, r != 0, 2r != M; plus: the shipped Kretschmann closed form IS the Kretschmann scalar of the metric, and null_ray_exp_out IS the divergence of the unit outward normal of the coordinate spheres), Harvey_Tsoubelis (vacuum), Collins_Stewart (rho, press), Rosquist_Jantzen (Tdown4; the module constant k != 0 is proven), Szekeres (rho, press = 0, LCDM's Lambda: the equations at each point unconditionally, the derivative property of the jet under the hypergeometric-antiderivative hypothesis, shown satisfiable), Non_diagonal (Tdown4 exactly as written, t > 0, (A t)^2 != 2; its pressure coefficient is 1/12 since /repo commit 7527532 - with the earlier decimal 0.0833333 the statement was false and had been proven false); also the Friedmann and continuity equations of EdS/LCDM.",
-    "note": "NOT covered by a theorem; numerical sentinel only (sympy derivatives of the module's symbolic 4-metric evaluated with mpmath, textbook curvature, agreement to float64 round-off: 1e-12 of the larger side + 3e-14 of the sum of |terms|, Kretschmann 1e-12; a band failure is reported only if reproduced at a second point set): the hypergeometric antiderivative assumed for Szekeres (zz rate and the jet of its metric); ICPertFLRW beyond the EdS rate and the background limit (first-order constraints, LCDM growth index). The sentinel keeps checking all Einstein equations and the Kretschmann scalar on the real code independently of the theorems. Trusted: Lean kernel + propext/Classical.choice/Quot.sound; the translator (validated at random points to 1e-12 on all 628 generated definitions); reals in place of float64 and symbolic module constants (t_today = 2/(3 H0), ...); Python `/` and safe_division both modelled by Lean `/` with the non-vanishing of divisors stated as hypotheses (t > 0, r != 0, Z != 0, ...); the algebraic definition of curvature from a 2-jet (Spec/Jet4.lean: Christoffel symbols, derivative of the inverse metric, product rule, Riemann, Ricci, Einstein; citations there). The tables in Lemmas/C17Jet*.lean were written by the developer tool tools/py2lean/c17_jetgen.py (sympy) and carry no authority: each is proven equal to the Spec definition by Lean.",
+    "text": "Partial proof. Proven for all t > 0 and all positions (about definitions regenerated from the source each run): (T1) the numpy and sympy branches of every `analytical=` function (metric, lapse, a(t), A, Z_terms) denote the same function, for all 8 modules that have the flag; (T2) Kdown3 is the time-rate of gammadown3, d_t gamma_ij = -2 alpha K_ij, all nine components, for EdS and LCDM (including H = a'/a from the modules' own a(t), Hprop(t) and symbolically related constants), Conformally_flat, Schwarzschild_isotropic (static), Harvey_Tsoubelis, Collins_Stewart, Non_diagonal, Rosquist_Jantzen, Szekeres (eight components unconditionally; zz under the explicit hypothesis that integrated_part is an antiderivative of part_to_integrate, and Z != 0), ICPertFLRW on the EdS background for arbitrary second derivatives of Rc plus its unperturbed limit; lapse and zero shift read off each module's own gdown4; (T3) EINSTEIN'S EQUATIONS G_ab + Lambda g_ab = kappa T_ab, all ten components at every point of the domain, with G the textbook Einstein tensor computed from a 2-jet of the metric whose entries are PROVEN to be the first and second partial derivatives (Mathlib HasDerivAt) of the module's own generated metric: EdS, LCDM (perfect fluid at rest with the module's rho, press, Lambda), Conformally_flat (Tdown4), Schwarzschild_isotropic (vacuum, r != 0, 2r != M; plus: the shipped Kretschmann closed form IS the Kretschmann scalar of the metric, and null_ray_exp_out IS the divergence of the unit outward normal of the coordinate spheres), Harvey_Tsoubelis (vacuum), Collins_Stewart (rho, press), Rosquist_Jantzen (Tdown4; the module constant k != 0 is proven), Szekeres (rho, press = 0, LCDM's Lambda: the equations at each point unconditionally, the derivative property of the jet under the hypergeometric-antiderivative hypothesis, shown satisfiable), Non_diagonal (Tdown4 exactly as written, t > 0, (A t)^2 != 2; its pressure coefficient is 1/12 since /repo commit 7527532 - with the earlier decimal 0.0833333 the statement was false and had been proven false); also the Friedmann and continuity equations of EdS/LCDM. (T4, Props/C17Hyp.lean) THE HYPERGEOMETRIC ANTIDERIVATIVE IS NOW PROVEN, so the Szekeres statements hold without hypothesis: for Mathlib's Gauss series 2F1 (ordinaryHypergeometric) d/dtau[(3/5) sinh^(5/3) 2F1(5/6,3/2;11/6;-sinh^2)] = sinh^(2/3)/cosh^2 for 0 < tau, sinh^2 tau < 1 (term-wise differentiation of the power series inside the unit disc + Mathlib's binomial series); for its analytic continuation to the whole negative axis in Pfaff's form (1-x)^(-b) 2F1(c-a,b;c;x/(x-1)) (a convergent series for every x <= 0) the same identity for ALL tau > 0; and Pfaff's transformation for the module's parameters (the two functions coincide on -1 < x <= 0) is proven, so the second function IS the continuation of the first, and inside the disc all outputs of the module (Z_terms, gammadown3, Kdown3, rho, gdown4) are the same for both (Szekeres_series_agrees_on_disc). With it: K_is_metric_rate_Szekeres (all nine components), Szekeres_dtZ_is_rate_hyp and einstein_Szekeres (all ten Einstein equations, jet = derivatives of the module's metric) for all t > 0, Z != 0, no hypothesis left. (T5, Props/C17Pert.lean) ICPertFLRW AT FIRST ORDER: with Rc -> eps*Rc and all partial derivatives of Rc up to fourth order as arbitrary jet symbols (exact derivatives in place of fd), the module's generated gammadown3, Kdown3, delta1 are exactly affine in eps, their spatial derivatives are the same formulas on the shifted jets (HasDerivAt), and in the dual numbers R[eps]/(eps^2) the Hamiltonian constraint R + K^2 - K_ij K^ij = 2 kappa rho + 2 Lambda with rho = rho_bg (1 + eps delta1) and the three momentum constraints D_j K^j_i - D_i K = 0 hold (i.e. up to O(eps^2)), with the inverse metric proven to be the inverse, for EVERY background with a, H, F != 0, kappa rho = 3 Omega_m H^2 and Friedmann's equation - instantiated for EdS and for LCDM (with its growth-index approximation) for all t > 0; and d_t gamma_ij = -2 K_ij + 2[(2+f)/(F H) - d/dt(1/(F H^2))] d_i d_j Rc exactly for every background, so K = -(1/2) d_t gamma iff the growth relation d/dt[1/(F H^2)] = (2+f)/(F H) holds, which is proven for EdS (a ~ t^(2/3), f = 1, F = 5/2).",
+    "note": "NOT covered by a theorem; numerical sentinel only (sympy derivatives of the module's symbolic 4-metric evaluated with mpmath, textbook curvature, agreement to float64 round-off: 1e-12 of the larger side + 3e-14 of the sum of |terms|, Kretschmann 1e-12; a band failure is reported only if reproduced at a second point set): that scipy.special.hyp2f1 / sympy.hyper compute the function for which the antiderivative identity is proven (the sentinel evaluates, with mpmath at 30 digits on every run: the derivative identity itself, Pfaff's continuation summed term by term as Mathlib defines it against mpmath's hyp2f1 for tau in (0.05, 3), i.e. inside and outside the unit disc, and scipy's hyp2f1 against mpmath); for ICPertFLRW with sol = LCDM the relation K_ij = -(1/2) d_t gamma_ij is NOT exact: it needs the growth relation d/dt[1/(F H^2)] = (2+f)/(F H), which the module's f = Omega_m^(6/11) satisfies only approximately (relative residual of the d_i d_j Rc part 1.1e-2 at a = 1, 5e-4 at a = 0.5, < 1e-7 for a < 0.1; reported in the coverage of every run; stated as the hypothesis of ICPertFLRW_K_is_metric_rate_of_growth); ICPertFLRW beyond first order in eps, and fd derivatives versus exact derivatives (property C07). The sentinel keeps checking all Einstein equations and the Kretschmann scalar on the real code independently of the theorems. Trusted: Lean kernel + propext/Classical.choice/Quot.sound; the translator (validated at random points to 1e-12 on all 628 generated definitions); reals in place of float64 and symbolic module constants (t_today = 2/(3 H0), ...); Python `/` and safe_division both modelled by Lean `/` with the non-vanishing of divisors stated as hypotheses (t > 0, r != 0, Z != 0, ...); the algebraic definition of curvature from a 2-jet (Spec/Jet4.lean: Christoffel symbols, derivative of the inverse metric, product rule, Riemann, Ricci, Einstein; citations there). The tables in Lemmas/C17Jet*.lean were written by the developer tool tools/py2lean/c17_jetgen.py (sympy) and carry no authority: each is proven equal to the Spec definition by Lean.",
 }
